@@ -4,18 +4,24 @@ caught it in seeded/<id>/meta.json.   usage: run_seeded.py <seeded-id> <CHECK> [
 import json, os, subprocess, sys, time
 sid, checks = sys.argv[1], sys.argv[2:]
 d = "/verif/seeded/" + sid
+# SEEDED_REPO / SEEDED_HOME: run against a scratch worktree of /repo and a scratch copy of /verif
+# (a long sweep in the background while /repo and /verif stay free); results still go to /verif/seeded
+REPO = os.environ.get("SEEDED_REPO", "/repo")
+HOME = os.environ.get("SEEDED_HOME", "/verif")
+if REPO != "/repo":
+    os.environ["VERIF_REPO"] = REPO
 def sh(cmd, cwd=None):
     return subprocess.run(cmd, shell=True, cwd=cwd, capture_output=True, text=True)
-if sh("git status --porcelain", "/repo").stdout.strip():
+if sh("git status --porcelain", REPO).stdout.strip():
     raise SystemExit("/repo is dirty, refusing")
-p = sh("git apply %s/patch.diff" % d, "/repo")
+p = sh("git apply %s/patch.diff" % d, REPO)
 if p.returncode != 0:
     raise SystemExit("patch does not apply: " + p.stderr)
 meta = json.load(open(d + "/meta.json"))
 try:
     for c in checks:
         t0 = time.time()
-        r = sh("./bin/vcheck run %s --tier quick" % c, "/verif")
+        r = sh("./bin/vcheck run %s --tier quick" % c, HOME)
         sig = [l.strip() for l in r.stdout.splitlines() if l.strip().startswith("signature=")]
         entry = dict(check=c, exit=r.returncode, seconds=round(time.time() - t0, 1), signature=sig[0] if sig else None)
         print(sid, entry)
@@ -28,7 +34,7 @@ try:
         else:
             meta.setdefault("trouble", []).append(dict(entry, tail=r.stdout[-600:] + r.stderr[-600:]))
 finally:
-    sh("git checkout -q -- . && git clean -fdq", "/repo")
+    sh("git checkout -q -- . && git clean -fdq", REPO)
     json.dump(meta, open(d + "/meta.json", "w"), indent=1)
-if sh("git status --porcelain", "/repo").stdout.strip():
+if sh("git status --porcelain", REPO).stdout.strip():
     print("WARNING: /repo not clean")
